@@ -562,4 +562,92 @@ theorem toSubtreeTree_refines (pids types : List Int) (xs : List A) (src : Src) 
   simp [Py.len, Py.range]
 end tosub
 
+/-! ## `to_sub_tree` (deprecated wrapper) on all columns -/
+section dep
+variable {A Src Nm : Type} [Inhabited A] [Inhabited Src] [Inhabited Nm]
+
+/-- `id_map = {}; for i, idx in enumerate(id_map_arr): id_map[idx] = i`: the old→new dictionary of a new→old mapping -/
+def idMapOf (m : List Int) : Py.Dict Int Int := (Py.enumerate m).foldl (fun d p => Py.Dict.set d p.2 p.1) []
+
+theorem depFor1_loop : ∀ (l : List (Int × Int)) (v : to_sub_tree.V A Src Nm),
+    ∃ i idx, forEach to_sub_tree.for1 l v = .next { v with id_map := l.foldl (fun d p => Py.Dict.set d p.2 p.1) v.id_map, i := i, idx := idx } := by
+  intro l
+  induction l with
+  | nil => intro v; exact ⟨v.i, v.idx, by simp [forEach]⟩
+  | cons p ps ih =>
+    intro v
+    obtain ⟨i, idx, e⟩ := ih { v with i := p.1, idx := p.2, id_map := Py.Dict.set v.id_map p.2 p.1 }
+    refine ⟨i, idx, ?_⟩
+    simp only [forEach, to_sub_tree.for1, List.foldl_cons]
+    rw [e]
+
+/-- **`to_sub_tree` as translated, on EVERY input**: `propagate_removal`, compaction, the gather of every column through the mapping (the
+same as `to_subtree_impl`), the `Tree` of the result, and the old→new dictionary built from the mapping; the input columns are unchanged -/
+theorem toSubTree_eq (fuel : Nat) (ids pids types : List Int) (xs : List A) (src : Src) (nm : Nm) (sub : List Int × List Int) :
+    to_sub_tree fuel ids pids types xs src nm sub =
+      (propagate_removal fuel sub).bind fun s => (to_sub_topology s).bind fun r =>
+        (gatherBy ids pids types xs src nm r).map fun g => (ids, pids, types, xs, (g.2.2.2.2.2, idMapOf r.2)) := by
+  simp only [to_sub_tree, to_sub_tree.body, Py.seq, Py.bind]
+  cases propagate_removal fuel sub with
+  | none => simp [Py.finish]
+  | some s =>
+    simp only [Option.bind_some]
+    cases to_sub_topology s with
+    | none => simp [Py.finish]
+    | some r =>
+      simp only [Option.bind_some]
+      cases h1 : Py.take ids r.2 <;> cases h2 : Py.take pids r.2 <;> cases h3 : Py.take types r.2 <;> cases h4 : Py.take xs r.2 <;>
+        simp only [Py.finish, gatherBy, h1, h2, h3, h4, Option.bind_none, Option.bind_some, Option.map_none, Option.map_some]
+      rename_i a1 a2 a3 a4
+      obtain ⟨i, idx, e⟩ := depFor1_loop (A := A) (Src := Src) (Nm := Nm) (Py.enumerate r.2)
+        { (default : to_sub_tree.V A Src Nm) with ids := ids, pids := pids, types := types, xs := xs, t_source := src, t_names := nm, sub := s, u2_ := r.1, u3_ := r.2, new_id := r.1.1, new_pid := r.1.2, id_map_arr := r.2, n_nodes := Py.len r.1.1, nids := r.1.1, npids := r.1.2, ntypes := a3, nxs := a4, subtree := (Py.len r.1.1, (r.1.1, r.1.2, a3, a4), src, nm), id_map := [] }
+      simp only at e
+      simp only [e, idMapOf]
+      rfl
+/-- the topology-level `to_subtree` is: mark, propagate, compact -/
+theorem toSubtree_unfold (fuel : Nat) (ids pids rm : List Int) :
+    to_subtree fuel ids pids rm =
+      (RefineCut.markAll ids rm).bind fun l => (propagate_removal fuel (l, pids)).bind to_sub_topology := by
+  have hC := RefineCut.for1_loop rm { (default : to_subtree.V) with tids := ids, tpids := pids, removals := rm, new_ids := ids }
+  simp only [to_subtree, to_subtree.body, Py.seq, Py.bind]
+  cases hm : RefineCut.markAll ids rm with
+  | none =>
+    simp only [hm] at hC
+    simp [hC, Py.finish]
+  | some l =>
+    simp only [hm] at hC
+    obtain ⟨i2, e2⟩ := hC
+    simp only [e2, Option.bind_some]
+    cases propagate_removal fuel (l, pids) with
+    | none => simp [Py.finish]
+    | some sub =>
+      simp only [Option.bind_some]
+      cases to_sub_topology sub <;> simp [Py.finish]
+
+/-- **`to_sub_tree` as translated IS the model** on a tree object and the id column marked at the node ids `rm` (not yet propagated: the
+wrapper propagates itself): the model's `toSubtree` (precisely the nodes neither removed nor below a removed node), every further column
+gathered at the kept rows, and the old→new dictionary of the mapping -/
+theorem toSubTree_refines (pids types : List Int) (xs : List A) (src : Src) (nm : Nm) (r : Rose) (h : IsTree r pids) (rm l : List Int)
+    (hrm : ∀ i ∈ rm, 0 ≤ i ∧ i.toNat < pids.length) (hl : RefineCut.markAll (rangeI pids.length) rm = some l)
+    (h3 : types.length = pids.length) (h4 : xs.length = pids.length) (F : Nat) :
+    to_sub_tree (2 * r.size + F + 1) (rangeI pids.length) pids types xs src nm (l, pids) =
+      (toSubtree pids rm).map fun t =>
+        (rangeI pids.length, pids, types, xs,
+          (((t.mapping.length : Int), (Py.range (t.mapping.length : Int), t.newPid, takeRows types t.mapping, takeRows xs t.mapping), src, nm),
+           idMapOf t.mapping)) := by
+  have hsub := RefineCut.toSubtree_refines pids r h rm hrm F
+  rw [toSubtree_unfold, hl, Option.bind_some] at hsub
+  rw [toSubTree_eq, ← Option.bind_assoc, hsub]
+  obtain ⟨res, hr, hmap, _, _⟩ := C06.toSubtree_kept pids r h rm
+  have hmem : ∀ i ∈ res.mapping, 0 ≤ i ∧ i.toNat < pids.length := by
+    intro i hi
+    rw [hmap] at hi
+    exact (C06.mem_rangeI pids.length i).1 (List.mem_filter.1 hi).1
+  rw [hr]
+  simp only [Option.map_some, Option.bind_some, gatherBy]
+  rw [take_inrange (rangeI pids.length) res.mapping (by simpa [rangeI] using hmem), take_inrange pids res.mapping hmem,
+    take_inrange types res.mapping (by rw [h3]; exact hmem), take_inrange xs res.mapping (by rw [h4]; exact hmem)]
+  simp [Py.len, Py.range]
+end dep
+
 end RefineShortTip
